@@ -23,17 +23,8 @@ def bond_index_rule(chk, src, rule):
     # ---- renormalised-basis update: abstract run (chain_rules.update_mps_rule): kept count from the spectrum of the kept side, for the site of the truncated bond
     from .chain_rules import update_mps_rule
     update_mps_rule(chk, src, {"bond": rule})
-    for rel, qual in ((TREE, "TTNS.compress_node"), (TREE, "TTNS.update_2site")):
-        fi = src.func(rel, qual)
-        cfgc = [c for c in ast.walk(fi.node) if isinstance(c, ast.Call) and unparse(c.func).endswith("compute_m_trunc")]
-        lst = [n for n in ast.walk(fi.node) if isinstance(n, ast.Subscript) and isinstance(n.value, ast.Name) and n.value.id in ("temp_m_trunc", "m") and isinstance(n.ctx, ast.Load)]
-        if len(cfgc) != 1 or len(lst) != 1:
-            raise AnalysisError(f"{fi.where}: kept-count paths not recognised")
-        a_idx = unparse(cfgc[0].args[1]).replace(" ", "")
-        l_idx = unparse(lst[0].slice).replace(" ", "")
-        left = [unparse(k.value) for k in cfgc[0].keywords if k.arg == "left"] + [unparse(a) for a in cfgc[0].args[2:3]]
-        chk.ob(rule, f"{qual}: list path and config path use the same node index", a_idx == l_idx and left == ["False"], fi.where, {"config": a_idx, "list": l_idx, "left": left},
-               "same index, left=False", line=fi.node.lineno)
+    # tree: the kept-count paths of compress_node / update_2site (configuration and explicit list, index of the bond's child end, cap by the number of singular values)
+    # are decided by the abstract run of the tree decompositions (tree_rules.decomposition_axes, rule `decomposition-axes`)
 
 
 def config_copy_rule(chk, src, rule, classes=("CompressConfig",)):
